@@ -14,7 +14,7 @@ STATUS = {"started": "PStarted", "succeeded": "PSucceeded", "failed": "PFailed"}
 def gen_tree(rng, depth, width, p_action=0.45):
     if depth > 0 and rng.random() < p_action:
         n = rng.randrange(0, width + 1)
-        t = rng.choice([10, 10, 11, 12, 4])    # 4 = eliot:remote_task
+        t = rng.choice([10, 10, 11, 12, 4, 5])    # 4 = eliot:remote_task, 5 = "" (start_action's default)
         return ["A", t, rng.choice(["succeeded", "succeeded", "failed"]),
                 [gen_tree(rng, depth - 1, width, p_action) for _ in range(n)]]
     return ["M", rng.choice([10, 11, 12, 13])]
@@ -27,7 +27,7 @@ def gen_forest(rng, n_tasks, depth, width):
             forest.append(["M", rng.choice([10, 11])])
         else:
             n = rng.randrange(0, width + 1)
-            forest.append(["A", rng.choice([10, 11, 12]), rng.choice(["succeeded", "failed"]),
+            forest.append(["A", rng.choice([10, 11, 12, 5]), rng.choice(["succeeded", "failed"]),
                            [gen_tree(rng, depth - 1, width) for _ in range(n)]])
     return forest
 
@@ -60,7 +60,7 @@ def linearize(forest):
 
 
 def type_name(t):
-    return {4: "eliot:remote_task"}.get(t, "type%d" % t)
+    return {4: "eliot:remote_task", 5: ""}.get(t, "type%d" % t)
 
 
 def to_dict(m):
